@@ -37,6 +37,16 @@ def run(ctx, out):
     if err:
         out.oracle_failures.append({"op": "extract --lab", "observed": err, "expected": "translation", "key": "lab-extract", "what": "translator self-check failed"})
         return
+    shutil.copyfile(os.path.join(C.REPO, "Cargo.lock"), os.path.join(LAB, "Cargo.lock"))
+    rc, o, e = C.run(["cargo", "build", "--offline"], cwd=LAB)
+    if rc != 0:
+        out.disagreements.append({"family": "derive_lab build", "op": "cargo build derive_lab", "impl": e[-1500:], "model": "generated well-formed structs must compile"})
+        # search on with neutral field names (same structs otherwise): a field name captured by the macro's own locals is a compile error
+        rng = random.Random(ctx.seed * 7919 + 12)
+        structs, tops = L.generate(rng, n_top, plain_names=True)
+        tschema, err = build_lab(structs)
+        if err:
+            return
     # translator self-check: what the translator reads from the generated source == what the generator meant
     a, b = norm_schema(structs), norm_schema(tschema["structs"])
     diff = [n for n in a if a[n] != b.get(n)] + [n for n in b if n not in a]
@@ -103,6 +113,11 @@ def prepare_replay(ctx):
     structs, tops = L.generate(rng, 600 if ctx.tier == "thorough" else 150)
     build_lab(structs)
     shutil.copyfile(os.path.join(C.REPO, "Cargo.lock"), os.path.join(LAB, "Cargo.lock"))
-    C.run(["cargo", "build", "--offline"], cwd=LAB)
+    rc, _, _ = C.run(["cargo", "build", "--offline"], cwd=LAB)
+    if rc != 0:
+        rng = random.Random(ctx.seed * 7919 + 12)
+        structs, tops = L.generate(rng, 600 if ctx.tier == "thorough" else 150, plain_names=True)
+        build_lab(structs)
+        C.run(["cargo", "build", "--offline"], cwd=LAB)
     C.run(["lake", "build", "labdriver"], cwd=C.LEAN)
     return lambda ops: (C.run_lines(os.path.join(LAB, "target/debug/derive_lab"), ops), C.run_lines(os.path.join(C.LEAN, ".lake/build/bin/labdriver"), ops))
